@@ -31,7 +31,7 @@ ASSUMPTIONS = [
 ]
 NCASES = {"quick": 4800, "thorough": 300000}
 NSHARDS = 16
-SHARD_TIMEOUT = {"quick": 900, "thorough": 3600}
+SHARD_TIMEOUT = {"quick": 300, "thorough": 3600}
 MOD = "vf.checks.c11"
 
 VARIANTS = ["RandomLineAccessFile", "MemoryMappedRandomLineAccessFile", "MutableRandomLineAccessFile",
